@@ -857,6 +857,16 @@ def every_item(ctx, rr):
                     t = t.operand
                 if isinstance(t, ast.Compare) and len(t.ops) == 1 and isinstance(t.ops[0], (ast.NotIn, ast.In)):
                     return True, isinstance(t.ops[0], ast.NotIn) != neg
+                # single-lookup idiom: x = D.get(key); if x is None: <new>
+                if isinstance(t, ast.Compare) and len(t.ops) == 1 and isinstance(t.ops[0], (ast.Is, ast.IsNot)) and isinstance(t.left, ast.Name) \
+                        and isinstance(t.comparators[0], ast.Constant) and t.comparators[0].value is None:
+                    src = [a.value for a in P.own(u, ast.Assign) if any(isinstance(tt, ast.Name) and tt.id == t.left.id for tt in a.targets)]
+                    if src and any(isinstance(v, ast.Call) and isinstance(v.func, ast.Attribute) and v.func.attr == 'get' for v in src):
+                        return True, isinstance(t.ops[0], ast.Is) != neg
+                if isinstance(t, ast.Name):
+                    src = [a.value for a in P.own(u, ast.Assign) if any(isinstance(tt, ast.Name) and tt.id == t.id for tt in a.targets)]
+                    if src and any(isinstance(v, ast.Call) and isinstance(v.func, ast.Attribute) and v.func.attr == 'get' for v in src):
+                        return True, neg          # `if not x:` -> new when true
                 return False, None
             while lp is not None and not isinstance(lp, (ast.For, ast.While)):
                 if guard is None and isinstance(lp, ast.If) and membership(lp.test)[0]:
